@@ -53,7 +53,7 @@ type c10case struct {
 	Pw     int      `json:"pw,omitempty"`    // wire: index of the right password
 }
 
-var c10users = []string{"admin", "user-01", "cam user", "Ünal", "readuser"}
+var c10users = []string{"admin", "user-01", "cam user", "Ünal", "readuser", `WORKGROUP\operator`, "semi;colon=eq,comma"}
 
 var c10passwords = []string{
 	"secret",                   // 0
@@ -69,7 +69,7 @@ var c10passwords = []string{
 	"x y:z",                    // 10
 }
 
-var c10realms = []string{"IP Camera(1234)", "ipcam", "Realm, with=comma", "réalm 2"}
+var c10realms = []string{"IP Camera(1234)", "ipcam", "Realm, with=comma", "réalm 2", `DOMAIN\cams`}
 
 var c10streams = []string{
 	"rtsp://127.0.0.1:8554/cam/stream?x=1&y=2",
